@@ -38,7 +38,8 @@ def run(ctx):
         if o["v"]:
             nbad += 1
             if o["v"].startswith("loss of the returned sequence differs"):
-                raise core.Machinery("model mirror mismatch: %s" % o["ev"])
+                ctx.suspect("model mirror mismatch (loss of the returned sequence differs from the specified one): %s" % o["ev"])
+                continue
             ctx.violation("M1", "greedy_substitution: %s" % o["v"], dict(mode="prob", prob=c["prob"], finals=c["finals"],
                                                                           observed=o["ev"].get("y")), cls=o["v"][:60])
         elif "ev" in o:
